@@ -178,15 +178,23 @@ def isAny : Sch → Bool
   | .any => true
   | _ => false
 
+def nodupB : List String → Bool
+  | [] => true
+  | x :: xs => !xs.contains x && nodupB xs
+
 mutual
 def Ok : Sch → Bool
   | .oneOf _ => false
   | .anyOf l => OkL l
   | .array _ _ pre none_ items => OkL pre && Ok items && (!none_ || isAny items)
+  | .object props none_ ap req _ _ => OkKL props && Ok ap && (!none_ || isAny ap) && nodupB req
   | _ => true
 def OkL : SchL → Bool
   | .nil => true
   | .cons h t => Ok h && OkL t
+def OkKL : SchKL → Bool
+  | .nil => true
+  | .cons _ s t => Ok s && OkKL t
 end
 
 variable (ρ : String → String → Bool) (isMult : Dec → Num → Bool)
@@ -349,6 +357,7 @@ theorem normAnyLoop_none (v : Json) : ∀ (l acc : SchL), normAnyLoop l acc = no
       | string a b c => simp only [normAnyLoop] at hn; simp [satAny, normAnyLoop_none v t _ hn]
       | array a b c d e => simp only [normAnyLoop] at hn; simp [satAny, normAnyLoop_none v t _ hn]
       | oneOf l => simp only [normAnyLoop] at hn; simp [satAny, normAnyLoop_none v t _ hn]
+      | object a b c d e g => simp only [normAnyLoop] at hn; simp [satAny, normAnyLoop_none v t _ hn]
 
 theorem normAnyLoop_some (v : Json) : ∀ (l acc r : SchL), normAnyLoop l acc = some r →
     OkL l = true → OkL acc = true →
@@ -393,6 +402,10 @@ theorem normAnyLoop_some (v : Json) : ∀ (l acc r : SchL), normAnyLoop l acc = 
         obtain ⟨h1, h2⟩ := normAnyLoop_some v t _ r hn hl.2 (by rw [OkL_snoc]; simp [ha, hl.1])
         exact ⟨h1, by rw [h2, satAny_snoc]; simp [satAny, Bool.or_assoc]⟩
       | oneOf l => simp [Ok] at hl
+      | object a b c d e g =>
+        simp only [normAnyLoop] at hn
+        obtain ⟨h1, h2⟩ := normAnyLoop_some v t _ r hn hl.2 (by rw [OkL_snoc]; simp [ha, hl.1])
+        exact ⟨h1, by rw [h2, satAny_snoc]; simp [satAny, Bool.or_assoc]⟩
 
 theorem normalize_sat (s : Sch) (hs : Ok s = true) :
     Ok (normalize s) = true ∧ ∀ v, sat ρ isMult (normalize s) v = sat ρ isMult s v := by
@@ -434,6 +447,7 @@ theorem normalize_sat (s : Sch) (hs : Ok s = true) :
   | number n => exact ⟨by simp [normalize, Ok], fun v => by simp [normalize]⟩
   | string a b c => exact ⟨by simp [normalize, Ok], fun v => by simp [normalize]⟩
   | array a b c d e => exact ⟨by simpa [normalize] using hs, fun v => by simp [normalize]⟩
+  | object a b c d e g => exact ⟨by simpa [normalize] using hs, fun v => by simp [normalize]⟩
 
 end Sch
 end LlgVerif
